@@ -428,7 +428,14 @@ def _wrapping_filters(wrap: ast.AST) -> Optional[str]:
                 return unparse(g.ifs[0])
         return None
     if isinstance(wrap, ast.Call):
-        return unparse(wrap)[:60] if dotted(wrap.func) == "filter" else None
+        if dotted(wrap.func) == "filter":
+            return unparse(wrap)[:60]
+        for a in wrap.args[1:] if dotted(wrap.func) == "map" else []:
+            # what the mapping runs over is the source itself, not a selection of it
+            inner = _wrapping_filters(a) if isinstance(a, (ast.GeneratorExp, ast.Call)) else None
+            if inner:
+                return inner
+        return None
     if isinstance(wrap, (ast.FunctionDef,)):
         for lp in [x for x in own_nodes(wrap) if isinstance(x, ast.For)]:
             for t in [x for x in ast.walk(lp) if isinstance(x, ast.If)]:
@@ -554,37 +561,65 @@ def rule_iter_snapshot(db: ProgramDB) -> List[Instance]:
 
 # ---------------------------------------------------------------------------------- MEMO-SOURCE-FAILURE
 def rule_memo_source_failure(db: ProgramDB) -> List[Instance]:
-    """The memoising wrapper pulls from a one-shot source.  A source that is a generator over a sub-query (a domain given
-    as an expression) is finished for good when user code raises inside it; from then on it looks exhausted, and the memo
-    - the elements pulled before the exception - passes for the whole domain.  The pull therefore has to sit under an
-    exception handler that records the failure (so that the source can be re-created), or the wrapper must not keep a
-    source that raised."""
+    """The memoising wrapper pulls from a one-shot source, and a pull can fail (user code raises inside a sub-query that is the domain,
+    an iterator object reads from a flaky source).  After a failure the memo - the elements pulled before it - must not pass for the whole
+    domain.  Two structural conditions:
+      (a) what the wrapper puts between itself and the source is not a generator: an exception that passes through a generator finishes it,
+          and the elements the source still has would never be pulled (a `map` hands the exception on and stays usable);
+      (b) a domain given as an EXPRESSION is read from a generator over one evaluation of the expression, and that generator is finished by
+          the exception whatever wraps it: the variable's per-evaluation reset re-creates such a domain (and reaches the expression, which
+          is not below the variable in the graph), so the next evaluation of the query evaluates the expression anew."""
     out = []
     hi = db.cls("HashedIterable")
     n = 0
     for m in hi.methods.values():
-        if not m.is_generator:
-            continue
-        for loop in [x for x in own_nodes(m.node) if isinstance(x, ast.For) and isinstance(x.iter, ast.Attribute)
-                     and x.iter.attr == "iterable"]:
+        for a_ in own_nodes(m.node):
+            if not (isinstance(a_, ast.Assign) and any(isinstance(t, ast.Attribute) and t.attr == "iterable" and isinstance(t.value, ast.Name) and t.value.id == "self"
+                                                       for t in a_.targets)):
+                continue
+            v = a_.value
+            if isinstance(v, (ast.Name, ast.Attribute, ast.Constant, ast.List)):
+                continue
             n += 1
-            # enclosing try statements with a handler that does more than re-raise
-            handlers = []
-            p = db.parent(loop)
-            while p is not None and p is not m.node:
-                if isinstance(p, ast.Try):
-                    for h in p.handlers:
-                        if any(isinstance(x, (ast.Assign, ast.AugAssign, ast.Call)) for st in h.body for x in ast.walk(st)):
-                            handlers.append(h)
-                p = db.parent(p)
-            ok = bool(handlers)
-            out.append(inst("MEMO-SOURCE-FAILURE", HOLDS if ok else VIOLATION, m, f"{m.short}[a raising source looks exhausted]",
-                            "a failure of the source is recorded by an exception handler around the pull" if ok else
-                            "nothing records that the source raised: a generator that raised is finished, the next pass over the "
-                            "wrapper replays the memo and finds the source exhausted, so the elements pulled before the exception "
-                            "pass for the whole domain", line=loop.lineno))
+            gen = isinstance(v, ast.GeneratorExp)
+            how = unparse(v)[:60]
+            if isinstance(v, ast.Call):
+                t = None
+                if isinstance(v.func, ast.Attribute) and isinstance(v.func.value, ast.Name) and v.func.value.id in ("self", "cls"):
+                    t = hi.lookup(v.func.attr)
+                elif isinstance(v.func, ast.Name):
+                    t = db.resolve_dotted(m.module, v.func)
+                if isinstance(t, FuncInfo):
+                    rets = [r.value for r in own_nodes(t.node) if isinstance(r, ast.Return) and r.value is not None]
+                    gen = t.is_generator or any(isinstance(r, ast.GeneratorExp) for r in rets)
+                    how = f"{t.short} -> " + (unparse(rets[0])[:40] if rets else "generator")
+            out.append(inst("MEMO-SOURCE-FAILURE", VIOLATION if gen else HOLDS, m, f"{m.short}[the wrapper survives a failed pull]",
+                            f"`{how}` is a generator between the wrapper and the source: an exception of the source that passes through it finishes it, so after one failed "
+                            f"pull every later evaluation stops at the memoised prefix and never pulls the elements the source still has" if gen else
+                            f"`{how}`: not a generator, an exception of the source leaves it usable", line=a_.lineno))
     if n == 0:
-        raise AnalysisError("HashedIterable: no generator loop over self.iterable")
+        raise AnalysisError("HashedIterable: the place where the source is wrapped was not found")
+    var = db.cls("Variable")
+    rm = var.methods.get("_reset_only_my_cache_")
+    if rm is None or rm.cls is not var:
+        raise AnalysisError("Variable._reset_only_my_cache_ not found")
+    from ..boolexpr import guards_of
+    recreated = False
+    reaches = False
+    for x in own_nodes(rm.node):
+        if isinstance(x, ast.Call) and call_attr(x) == "_update_domain_":
+            g = guards_of(x, rm.node.body) or []
+            if any("SymbolicExpression" in unparse(t) and pol for t, pol in g):
+                recreated = True
+        if isinstance(x, ast.Call) and call_attr(x) in ("_reset_cache_",) and "domain" in unparse(x.func.value):
+            reaches = True
+    ok = recreated and reaches
+    out.append(inst("MEMO-SOURCE-FAILURE", HOLDS if ok else VIOLATION, rm, "Variable._reset_only_my_cache_[a domain given as an expression is read anew]",
+                    "the per-evaluation reset resets the domain expression and re-creates the domain from it" if ok else
+                    ("the per-evaluation reset keeps a domain that was read from ONE evaluation of the expression it was given as: " if not recreated else
+                     "the domain is re-created, but the expression it is read from (not below the variable in the graph) is not reset: ") +
+                    "after user code raised inside the sub-query the generator over it is finished and the memo of what was pulled before passes for the whole domain; "
+                    "let(Sub, domain=let(Base)) never sees an instance registered after its first evaluation", line=rm.lineno))
     return out
 
 
